@@ -195,6 +195,11 @@ def classify(c, r, target="sql.sqlite"):
         # a later select): recognisable only by the program shape - an append followed by a pruning or reordering transform
         if st == "rows-differ" and "UNION ALL" in sql and re.search(r"\bappend\b.*\n(?:.*\n)*?(?:select|aggregate|group|sort)\b", prql):
             return "append-branches-misaligned"
+        # the bottom branch lists its own columns (aliases q0, q1, ...) out of order: it was permuted like the top's frame
+        for top, bot in _select_lists_of_unions(sql):
+            qs = [int(m.group(1)) for m in (re.search(r" AS q([0-9]+)$", x) for x in bot) if m]
+            if st == "rows-differ" and len(qs) >= 2 and qs != sorted(qs):
+                return "append-branches-misaligned"
     if re.search(r"GROUP BY (?:[^()]*?, )?-?[0-9]+(?:,| |\)|$)", sql) and (st == "rows-differ" or (st == "sqlite-error" and "GROUP BY" in det)):
         return "group-by-constant-read-as-ordinal"
     if st == "rows-differ" and re.search(r"SELECT DISTINCT (?:ON \([^)]*\) )?[^()]* LIMIT [0-9]+", sql) and \
@@ -217,6 +222,13 @@ def classify(c, r, target="sql.sqlite"):
         v = window_defect_variant(c, r)
         if v:
             return v
+    if st in ("rows-differ", "sqlite-error"):
+        defs = re.findall(r"((?:COALESCE\()?(?:COUNT|SUM|MIN|MAX|AVG)\([^()]*(?:\([^()]*\)[^()]*)*\)(?:, 0\))?) AS (g[0-9]+)\b", sql)
+        seen = {}
+        for expr, alias in defs:
+            seen[alias] = seen.get(alias, 0) + 1
+        if any(v >= 2 for v in seen.values()) and re.search(r"\bsort\b", prql):
+            return "sort-key-aggregate-rematerialised"
     if st in ("rows-differ", "sqlite-error") and "SELECT NULL FROM" in sql and re.search(r"\baggregate\b", prql):
         return "unused-aggregate-elided"
     if st == "column-count":
